@@ -305,25 +305,25 @@ rt!(c22_t_n1_cs_requestnext_rt, cs::Message, 48, 16, 18, cs::Message::RequestNex
 wf!(c22_t_n1_cs_awaitreply_wf, cs::Message, 48, 16, 18, cs::Message::AwaitReply, cs::eq);
 rt!(c22_t_n1_cs_awaitreply_rt, cs::Message, 48, 16, 18, cs::Message::AwaitReply, cs::eq);
 wf!(c22_t_n1_cs_rollforward_shelley_wf, cs::Message, 48, 16, 18, cs::Message::RollForward(cs::content(false, 1), cs::tip_k(1, 1)), cs::eq);
-rt!(c22_t_n1_cs_rollforward_shelley_rt, cs::Message, 48, 16, 18, cs::Message::RollForward(cs::content(false, 1), cs::tip_k(1, 1)), cs::eq);
+rt!(c22_x_n1_cs_rollforward_shelley_rt, cs::Message, 48, 16, 18, cs::Message::RollForward(cs::content(false, 1), cs::tip_k(1, 1)), cs::eq);
 wf!(c22_t_n1_cs_rollforward_byron_wf, cs::Message, 48, 16, 18, cs::Message::RollForward(cs::content(true, 1), cs::tip_k(1, 0)), cs::eq);
-rt!(c22_t_n1_cs_rollforward_byron_rt, cs::Message, 48, 16, 18, cs::Message::RollForward(cs::content(true, 1), cs::tip_k(1, 0)), cs::eq);
+rt!(c22_x_n1_cs_rollforward_byron_rt, cs::Message, 48, 16, 18, cs::Message::RollForward(cs::content(true, 1), cs::tip_k(1, 0)), cs::eq);
 wf!(c22_t_n1_cs_rollforward_shelley_origin_wf, cs::Message, 48, 16, 18, cs::Message::RollForward(cs::content(false, 0), cs::tip_k(0, 0)), cs::eq);
-rt!(c22_t_n1_cs_rollforward_shelley_origin_rt, cs::Message, 48, 16, 18, cs::Message::RollForward(cs::content(false, 0), cs::tip_k(0, 0)), cs::eq);
+rt!(c22_x_n1_cs_rollforward_shelley_origin_rt, cs::Message, 48, 16, 18, cs::Message::RollForward(cs::content(false, 0), cs::tip_k(0, 0)), cs::eq);
 wf!(c22_q_n1_cs_rollbackward_wf, cs::Message, 48, 16, 18, cs::Message::RollBackward(point_k(1, 1), cs::tip_k(1, 1)), cs::eq);
-rt!(c22_t_n1_cs_rollbackward_rt, cs::Message, 48, 16, 18, cs::Message::RollBackward(point_k(1, 1), cs::tip_k(1, 1)), cs::eq);
+rt!(c22_x_n1_cs_rollbackward_rt, cs::Message, 48, 16, 18, cs::Message::RollBackward(point_k(1, 1), cs::tip_k(1, 1)), cs::eq);
 wf!(c22_t_n1_cs_rollbackward_origin_wf, cs::Message, 48, 16, 18, cs::Message::RollBackward(point_k(0, 0), cs::tip_k(1, 0)), cs::eq);
-rt!(c22_t_n1_cs_rollbackward_origin_rt, cs::Message, 48, 16, 18, cs::Message::RollBackward(point_k(0, 0), cs::tip_k(1, 0)), cs::eq);
+rt!(c22_x_n1_cs_rollbackward_origin_rt, cs::Message, 48, 16, 18, cs::Message::RollBackward(point_k(0, 0), cs::tip_k(1, 0)), cs::eq);
 wf!(c22_t_n1_cs_findintersect0_wf, cs::Message, 48, 16, 18, cs::Message::FindIntersect(cs::points(0)), cs::eq);
 rt!(c22_t_n1_cs_findintersect0_rt, cs::Message, 48, 16, 18, cs::Message::FindIntersect(cs::points(0)), cs::eq);
 wf!(c22_q_n1_cs_findintersect1_wf, cs::Message, 48, 16, 18, cs::Message::FindIntersect(cs::points(1)), cs::eq);
-rt!(c22_t_n1_cs_findintersect1_rt, cs::Message, 48, 16, 18, cs::Message::FindIntersect(cs::points(1)), cs::eq);
+rt!(c22_x_n1_cs_findintersect1_rt, cs::Message, 48, 16, 18, cs::Message::FindIntersect(cs::points(1)), cs::eq);
 wf!(c22_t_n1_cs_findintersect2_wf, cs::Message, 48, 16, 18, cs::Message::FindIntersect(cs::points(2)), cs::eq);
-rt!(c22_t_n1_cs_findintersect2_rt, cs::Message, 48, 16, 18, cs::Message::FindIntersect(cs::points(2)), cs::eq);
+rt!(c22_x_n1_cs_findintersect2_rt, cs::Message, 48, 16, 18, cs::Message::FindIntersect(cs::points(2)), cs::eq);
 wf!(c22_t_n1_cs_intersectfound_wf, cs::Message, 48, 16, 18, cs::Message::IntersectFound(point_k(1, 1), cs::tip_k(1, 1)), cs::eq);
-rt!(c22_t_n1_cs_intersectfound_rt, cs::Message, 48, 16, 18, cs::Message::IntersectFound(point_k(1, 1), cs::tip_k(1, 1)), cs::eq);
+rt!(c22_x_n1_cs_intersectfound_rt, cs::Message, 48, 16, 18, cs::Message::IntersectFound(point_k(1, 1), cs::tip_k(1, 1)), cs::eq);
 wf!(c22_t_n1_cs_intersectnotfound_wf, cs::Message, 48, 16, 18, cs::Message::IntersectNotFound(cs::tip_k(1, 1)), cs::eq);
-rt!(c22_t_n1_cs_intersectnotfound_rt, cs::Message, 48, 16, 18, cs::Message::IntersectNotFound(cs::tip_k(1, 1)), cs::eq);
+rt!(c22_x_n1_cs_intersectnotfound_rt, cs::Message, 48, 16, 18, cs::Message::IntersectNotFound(cs::tip_k(1, 1)), cs::eq);
 wf!(c22_t_n1_cs_intersectnotfound_origin_wf, cs::Message, 48, 16, 18, cs::Message::IntersectNotFound(cs::tip_k(0, 0)), cs::eq);
 rt!(c22_t_n1_cs_intersectnotfound_origin_rt, cs::Message, 48, 16, 18, cs::Message::IntersectNotFound(cs::tip_k(0, 0)), cs::eq);
 wf!(c22_q_n1_cs_done_wf, cs::Message, 48, 16, 18, cs::Message::Done, cs::eq);
@@ -425,25 +425,25 @@ pub mod tx {
 wf!(c22_t_n1_tx_init_wf, tx::Message, 40, 16, 18, tx::Message::Init, tx::eq);
 rt!(c22_q_n1_tx_init_rt, tx::Message, 40, 16, 18, tx::Message::Init, tx::eq);
 wf!(c22_q_n1_tx_requesttxids_wf, tx::Message, 40, 16, 18, tx::Message::RequestTxIds(kani::any(), any_u16(), any_u16()), tx::eq);
-rt!(c22_t_n1_tx_requesttxids_rt, tx::Message, 40, 16, 18, tx::Message::RequestTxIds(kani::any(), any_u16(), any_u16()), tx::eq);
+rt!(c22_x_n1_tx_requesttxids_rt, tx::Message, 40, 16, 18, tx::Message::RequestTxIds(kani::any(), any_u16(), any_u16()), tx::eq);
 wf!(c22_t_n1_tx_replytxids0_wf, tx::Message, 40, 16, 18, tx::Message::ReplyTxIds(tx::idsizes(0)), tx::eq);
 rt!(c22_t_n1_tx_replytxids0_rt, tx::Message, 40, 16, 18, tx::Message::ReplyTxIds(tx::idsizes(0)), tx::eq);
 wf!(c22_q_n1_tx_replytxids1_wf, tx::Message, 40, 16, 18, tx::Message::ReplyTxIds(tx::idsizes(1)), tx::eq);
-rt!(c22_t_n1_tx_replytxids1_rt, tx::Message, 40, 16, 18, tx::Message::ReplyTxIds(tx::idsizes(1)), tx::eq);
+rt!(c22_x_n1_tx_replytxids1_rt, tx::Message, 40, 16, 18, tx::Message::ReplyTxIds(tx::idsizes(1)), tx::eq);
 wf!(c22_t_n1_tx_replytxids2_wf, tx::Message, 40, 16, 18, tx::Message::ReplyTxIds(tx::idsizes(2)), tx::eq);
-rt!(c22_t_n1_tx_replytxids2_rt, tx::Message, 40, 16, 18, tx::Message::ReplyTxIds(tx::idsizes(2)), tx::eq);
+rt!(c22_x_n1_tx_replytxids2_rt, tx::Message, 40, 16, 18, tx::Message::ReplyTxIds(tx::idsizes(2)), tx::eq);
 wf!(c22_t_n1_tx_requesttxs0_wf, tx::Message, 40, 16, 18, tx::Message::RequestTxs(tx::ids(0)), tx::eq);
 rt!(c22_t_n1_tx_requesttxs0_rt, tx::Message, 40, 16, 18, tx::Message::RequestTxs(tx::ids(0)), tx::eq);
 wf!(c22_t_n1_tx_requesttxs1_wf, tx::Message, 40, 16, 18, tx::Message::RequestTxs(tx::ids(1)), tx::eq);
-rt!(c22_t_n1_tx_requesttxs1_rt, tx::Message, 40, 16, 18, tx::Message::RequestTxs(tx::ids(1)), tx::eq);
+rt!(c22_x_n1_tx_requesttxs1_rt, tx::Message, 40, 16, 18, tx::Message::RequestTxs(tx::ids(1)), tx::eq);
 wf!(c22_t_n1_tx_requesttxs2_wf, tx::Message, 40, 16, 18, tx::Message::RequestTxs(tx::ids(2)), tx::eq);
-rt!(c22_t_n1_tx_requesttxs2_rt, tx::Message, 40, 16, 18, tx::Message::RequestTxs(tx::ids(2)), tx::eq);
+rt!(c22_x_n1_tx_requesttxs2_rt, tx::Message, 40, 16, 18, tx::Message::RequestTxs(tx::ids(2)), tx::eq);
 wf!(c22_t_n1_tx_replytxs0_wf, tx::Message, 40, 16, 18, tx::Message::ReplyTxs(tx::bodies(0)), tx::eq);
 rt!(c22_t_n1_tx_replytxs0_rt, tx::Message, 40, 16, 18, tx::Message::ReplyTxs(tx::bodies(0)), tx::eq);
 wf!(c22_q_n1_tx_replytxs1_wf, tx::Message, 40, 16, 18, tx::Message::ReplyTxs(tx::bodies(1)), tx::eq);
-rt!(c22_t_n1_tx_replytxs1_rt, tx::Message, 40, 16, 18, tx::Message::ReplyTxs(tx::bodies(1)), tx::eq);
+rt!(c22_x_n1_tx_replytxs1_rt, tx::Message, 40, 16, 18, tx::Message::ReplyTxs(tx::bodies(1)), tx::eq);
 wf!(c22_t_n1_tx_replytxs2_wf, tx::Message, 40, 16, 18, tx::Message::ReplyTxs(tx::bodies(2)), tx::eq);
-rt!(c22_t_n1_tx_replytxs2_rt, tx::Message, 40, 16, 18, tx::Message::ReplyTxs(tx::bodies(2)), tx::eq);
+rt!(c22_x_n1_tx_replytxs2_rt, tx::Message, 40, 16, 18, tx::Message::ReplyTxs(tx::bodies(2)), tx::eq);
 wf!(c22_t_n1_tx_done_wf, tx::Message, 40, 16, 18, tx::Message::Done, tx::eq);
 rt!(c22_t_n1_tx_done_rt, tx::Message, 40, 16, 18, tx::Message::Done, tx::eq);
 
@@ -501,11 +501,11 @@ pub mod ps {
 wf!(c22_q_n1_ps_sharerequest_wf, ps::Message, 40, 12, 14, ps::Message::ShareRequest(any_u8()), ps::eq);
 rt!(c22_q_n1_ps_sharerequest_rt, ps::Message, 40, 12, 14, ps::Message::ShareRequest(any_u8()), ps::eq);
 wf!(c22_t_n1_ps_sharepeers0_wf, ps::Message, 40, 12, 14, ps::Message::SharePeers(Vec::new()), ps::eq);
-rt!(c22_t_n1_ps_sharepeers0_rt, ps::Message, 40, 12, 14, ps::Message::SharePeers(Vec::new()), ps::eq);
+rt!(c22_x_n1_ps_sharepeers0_rt, ps::Message, 40, 12, 14, ps::Message::SharePeers(Vec::new()), ps::eq);
 wf!(c22_q_n1_ps_sharepeers1_v4_wf, ps::Message, 40, 12, 14, ps::Message::SharePeers(vec![ps::v4()]), ps::eq);
-rt!(c22_t_n1_ps_sharepeers1_v4_rt, ps::Message, 40, 12, 14, ps::Message::SharePeers(vec![ps::v4()]), ps::eq);
+rt!(c22_x_n1_ps_sharepeers1_v4_rt, ps::Message, 40, 12, 14, ps::Message::SharePeers(vec![ps::v4()]), ps::eq);
 wf!(c22_t_n1_ps_sharepeers2_v4_wf, ps::Message, 40, 12, 14, ps::Message::SharePeers(vec![ps::v4(), ps::v4()]), ps::eq);
-rt!(c22_t_n1_ps_sharepeers2_v4_rt, ps::Message, 40, 12, 14, ps::Message::SharePeers(vec![ps::v4(), ps::v4()]), ps::eq);
+rt!(c22_x_n1_ps_sharepeers2_v4_rt, ps::Message, 40, 12, 14, ps::Message::SharePeers(vec![ps::v4(), ps::v4()]), ps::eq);
 wf!(c22_t_n1_ps_done_wf, ps::Message, 40, 12, 14, ps::Message::Done, ps::eq);
 rt!(c22_q_n1_ps_done_rt, ps::Message, 40, 12, 14, ps::Message::Done, ps::eq);
 wf!(c22_q_n1_ps_addr_v4_wf, ps::PeerAddress, 40, 12, 14, ps::v4(), ps::eq_addr);
@@ -515,7 +515,7 @@ rt!(c22_t_n1_ps_addr_v4_rt, ps::PeerAddress, 40, 12, 14, ps::v4(), ps::eq_addr);
 wf!(c22_q_n1_ps_addr_v6_wf, ps::PeerAddress, 40, 12, 14, ps::v6(), ps::eq_addr);
 rt!(c22_t_n1_ps_addr_v6_rt, ps::PeerAddress, 40, 12, 14, ps::v6(), ps::eq_addr);
 wf!(c22_q_n1_ps_sharepeers1_v6_wf, ps::Message, 40, 12, 14, ps::Message::SharePeers(vec![ps::v6()]), ps::eq);
-rt!(c22_t_n1_ps_sharepeers1_v6_rt, ps::Message, 40, 12, 14, ps::Message::SharePeers(vec![ps::v6()]), ps::eq);
+rt!(c22_x_n1_ps_sharepeers1_v6_rt, ps::Message, 40, 12, 14, ps::Message::SharePeers(vec![ps::v6()]), ps::eq);
 
 // bound: head-class sweep (classes 0..3 = 1, 2, 3, 5-byte integer encodings; class 4 is the default of every harness above): keepalive cookie, Point slot; unwind 10
 wf!(c22_t_n1_ka_keepalive_k0_wf, ka::Message, 8, 4, 10, ka::Message::KeepAlive(any_u16()), ka::eq, 0);
@@ -537,41 +537,41 @@ rt!(c22_t_n1_bf_range_ss_k0_rt, bf::Message, 32, 10, 12, bf::Message::RequestRan
 wf!(c22_t_n1_bf_range_ss_k1_wf, bf::Message, 32, 10, 12, bf::Message::RequestRange { range: (point_k(1, 1), point_k(1, 1)) }, bf::eq, 1);
 rt!(c22_t_n1_bf_range_ss_k1_rt, bf::Message, 32, 10, 12, bf::Message::RequestRange { range: (point_k(1, 1), point_k(1, 1)) }, bf::eq, 1);
 wf!(c22_t_n1_bf_range_ss_k2_wf, bf::Message, 32, 10, 12, bf::Message::RequestRange { range: (point_k(1, 1), point_k(1, 1)) }, bf::eq, 2);
-rt!(c22_t_n1_bf_range_ss_k2_rt, bf::Message, 32, 10, 12, bf::Message::RequestRange { range: (point_k(1, 1), point_k(1, 1)) }, bf::eq, 2);
+rt!(c22_x_n1_bf_range_ss_k2_rt, bf::Message, 32, 10, 12, bf::Message::RequestRange { range: (point_k(1, 1), point_k(1, 1)) }, bf::eq, 2);
 wf!(c22_t_n1_bf_range_ss_k3_wf, bf::Message, 32, 10, 12, bf::Message::RequestRange { range: (point_k(1, 1), point_k(1, 1)) }, bf::eq, 3);
-rt!(c22_t_n1_bf_range_ss_k3_rt, bf::Message, 32, 10, 12, bf::Message::RequestRange { range: (point_k(1, 1), point_k(1, 1)) }, bf::eq, 3);
+rt!(c22_x_n1_bf_range_ss_k3_rt, bf::Message, 32, 10, 12, bf::Message::RequestRange { range: (point_k(1, 1), point_k(1, 1)) }, bf::eq, 3);
 wf!(c22_t_n1_cs_rollforward_byron_k0_wf, cs::Message, 48, 16, 18, cs::Message::RollForward(cs::content(true, 1), cs::tip_k(1, 0)), cs::eq, 0);
-rt!(c22_t_n1_cs_rollforward_byron_k0_rt, cs::Message, 48, 16, 18, cs::Message::RollForward(cs::content(true, 1), cs::tip_k(1, 0)), cs::eq, 0);
+rt!(c22_x_n1_cs_rollforward_byron_k0_rt, cs::Message, 48, 16, 18, cs::Message::RollForward(cs::content(true, 1), cs::tip_k(1, 0)), cs::eq, 0);
 wf!(c22_t_n1_cs_rollforward_byron_k1_wf, cs::Message, 48, 16, 18, cs::Message::RollForward(cs::content(true, 1), cs::tip_k(1, 0)), cs::eq, 1);
-rt!(c22_t_n1_cs_rollforward_byron_k1_rt, cs::Message, 48, 16, 18, cs::Message::RollForward(cs::content(true, 1), cs::tip_k(1, 0)), cs::eq, 1);
+rt!(c22_x_n1_cs_rollforward_byron_k1_rt, cs::Message, 48, 16, 18, cs::Message::RollForward(cs::content(true, 1), cs::tip_k(1, 0)), cs::eq, 1);
 wf!(c22_t_n1_cs_rollforward_byron_k2_wf, cs::Message, 48, 16, 18, cs::Message::RollForward(cs::content(true, 1), cs::tip_k(1, 0)), cs::eq, 2);
-rt!(c22_t_n1_cs_rollforward_byron_k2_rt, cs::Message, 48, 16, 18, cs::Message::RollForward(cs::content(true, 1), cs::tip_k(1, 0)), cs::eq, 2);
+rt!(c22_x_n1_cs_rollforward_byron_k2_rt, cs::Message, 48, 16, 18, cs::Message::RollForward(cs::content(true, 1), cs::tip_k(1, 0)), cs::eq, 2);
 wf!(c22_t_n1_cs_rollforward_byron_k3_wf, cs::Message, 48, 16, 18, cs::Message::RollForward(cs::content(true, 1), cs::tip_k(1, 0)), cs::eq, 3);
-rt!(c22_t_n1_cs_rollforward_byron_k3_rt, cs::Message, 48, 16, 18, cs::Message::RollForward(cs::content(true, 1), cs::tip_k(1, 0)), cs::eq, 3);
+rt!(c22_x_n1_cs_rollforward_byron_k3_rt, cs::Message, 48, 16, 18, cs::Message::RollForward(cs::content(true, 1), cs::tip_k(1, 0)), cs::eq, 3);
 wf!(c22_t_n1_cs_rollbackward_k0_wf, cs::Message, 48, 16, 18, cs::Message::RollBackward(point_k(1, 1), cs::tip_k(1, 1)), cs::eq, 0);
-rt!(c22_t_n1_cs_rollbackward_k0_rt, cs::Message, 48, 16, 18, cs::Message::RollBackward(point_k(1, 1), cs::tip_k(1, 1)), cs::eq, 0);
+rt!(c22_x_n1_cs_rollbackward_k0_rt, cs::Message, 48, 16, 18, cs::Message::RollBackward(point_k(1, 1), cs::tip_k(1, 1)), cs::eq, 0);
 wf!(c22_t_n1_cs_rollbackward_k1_wf, cs::Message, 48, 16, 18, cs::Message::RollBackward(point_k(1, 1), cs::tip_k(1, 1)), cs::eq, 1);
-rt!(c22_t_n1_cs_rollbackward_k1_rt, cs::Message, 48, 16, 18, cs::Message::RollBackward(point_k(1, 1), cs::tip_k(1, 1)), cs::eq, 1);
+rt!(c22_x_n1_cs_rollbackward_k1_rt, cs::Message, 48, 16, 18, cs::Message::RollBackward(point_k(1, 1), cs::tip_k(1, 1)), cs::eq, 1);
 wf!(c22_t_n1_cs_rollbackward_k2_wf, cs::Message, 48, 16, 18, cs::Message::RollBackward(point_k(1, 1), cs::tip_k(1, 1)), cs::eq, 2);
-rt!(c22_t_n1_cs_rollbackward_k2_rt, cs::Message, 48, 16, 18, cs::Message::RollBackward(point_k(1, 1), cs::tip_k(1, 1)), cs::eq, 2);
+rt!(c22_x_n1_cs_rollbackward_k2_rt, cs::Message, 48, 16, 18, cs::Message::RollBackward(point_k(1, 1), cs::tip_k(1, 1)), cs::eq, 2);
 wf!(c22_t_n1_cs_rollbackward_k3_wf, cs::Message, 48, 16, 18, cs::Message::RollBackward(point_k(1, 1), cs::tip_k(1, 1)), cs::eq, 3);
-rt!(c22_t_n1_cs_rollbackward_k3_rt, cs::Message, 48, 16, 18, cs::Message::RollBackward(point_k(1, 1), cs::tip_k(1, 1)), cs::eq, 3);
+rt!(c22_x_n1_cs_rollbackward_k3_rt, cs::Message, 48, 16, 18, cs::Message::RollBackward(point_k(1, 1), cs::tip_k(1, 1)), cs::eq, 3);
 wf!(c22_t_n1_tx_requesttxids_k0_wf, tx::Message, 40, 16, 18, tx::Message::RequestTxIds(kani::any(), any_u16(), any_u16()), tx::eq, 0);
-rt!(c22_t_n1_tx_requesttxids_k0_rt, tx::Message, 40, 16, 18, tx::Message::RequestTxIds(kani::any(), any_u16(), any_u16()), tx::eq, 0);
+rt!(c22_x_n1_tx_requesttxids_k0_rt, tx::Message, 40, 16, 18, tx::Message::RequestTxIds(kani::any(), any_u16(), any_u16()), tx::eq, 0);
 wf!(c22_t_n1_tx_requesttxids_k1_wf, tx::Message, 40, 16, 18, tx::Message::RequestTxIds(kani::any(), any_u16(), any_u16()), tx::eq, 1);
-rt!(c22_t_n1_tx_requesttxids_k1_rt, tx::Message, 40, 16, 18, tx::Message::RequestTxIds(kani::any(), any_u16(), any_u16()), tx::eq, 1);
+rt!(c22_x_n1_tx_requesttxids_k1_rt, tx::Message, 40, 16, 18, tx::Message::RequestTxIds(kani::any(), any_u16(), any_u16()), tx::eq, 1);
 wf!(c22_t_n1_tx_requesttxids_k2_wf, tx::Message, 40, 16, 18, tx::Message::RequestTxIds(kani::any(), any_u16(), any_u16()), tx::eq, 2);
-rt!(c22_t_n1_tx_requesttxids_k2_rt, tx::Message, 40, 16, 18, tx::Message::RequestTxIds(kani::any(), any_u16(), any_u16()), tx::eq, 2);
+rt!(c22_x_n1_tx_requesttxids_k2_rt, tx::Message, 40, 16, 18, tx::Message::RequestTxIds(kani::any(), any_u16(), any_u16()), tx::eq, 2);
 wf!(c22_t_n1_tx_requesttxids_k3_wf, tx::Message, 40, 16, 18, tx::Message::RequestTxIds(kani::any(), any_u16(), any_u16()), tx::eq, 3);
-rt!(c22_t_n1_tx_requesttxids_k3_rt, tx::Message, 40, 16, 18, tx::Message::RequestTxIds(kani::any(), any_u16(), any_u16()), tx::eq, 3);
+rt!(c22_x_n1_tx_requesttxids_k3_rt, tx::Message, 40, 16, 18, tx::Message::RequestTxIds(kani::any(), any_u16(), any_u16()), tx::eq, 3);
 wf!(c22_t_n1_tx_replytxids1_k0_wf, tx::Message, 40, 16, 18, tx::Message::ReplyTxIds(tx::idsizes(1)), tx::eq, 0);
-rt!(c22_t_n1_tx_replytxids1_k0_rt, tx::Message, 40, 16, 18, tx::Message::ReplyTxIds(tx::idsizes(1)), tx::eq, 0);
+rt!(c22_x_n1_tx_replytxids1_k0_rt, tx::Message, 40, 16, 18, tx::Message::ReplyTxIds(tx::idsizes(1)), tx::eq, 0);
 wf!(c22_t_n1_tx_replytxids1_k1_wf, tx::Message, 40, 16, 18, tx::Message::ReplyTxIds(tx::idsizes(1)), tx::eq, 1);
-rt!(c22_t_n1_tx_replytxids1_k1_rt, tx::Message, 40, 16, 18, tx::Message::ReplyTxIds(tx::idsizes(1)), tx::eq, 1);
+rt!(c22_x_n1_tx_replytxids1_k1_rt, tx::Message, 40, 16, 18, tx::Message::ReplyTxIds(tx::idsizes(1)), tx::eq, 1);
 wf!(c22_t_n1_tx_replytxids1_k2_wf, tx::Message, 40, 16, 18, tx::Message::ReplyTxIds(tx::idsizes(1)), tx::eq, 2);
-rt!(c22_t_n1_tx_replytxids1_k2_rt, tx::Message, 40, 16, 18, tx::Message::ReplyTxIds(tx::idsizes(1)), tx::eq, 2);
+rt!(c22_x_n1_tx_replytxids1_k2_rt, tx::Message, 40, 16, 18, tx::Message::ReplyTxIds(tx::idsizes(1)), tx::eq, 2);
 wf!(c22_t_n1_tx_replytxids1_k3_wf, tx::Message, 40, 16, 18, tx::Message::ReplyTxIds(tx::idsizes(1)), tx::eq, 3);
-rt!(c22_t_n1_tx_replytxids1_k3_rt, tx::Message, 40, 16, 18, tx::Message::ReplyTxIds(tx::idsizes(1)), tx::eq, 3);
+rt!(c22_x_n1_tx_replytxids1_k3_rt, tx::Message, 40, 16, 18, tx::Message::ReplyTxIds(tx::idsizes(1)), tx::eq, 3);
 wf!(c22_t_n1_ps_sharerequest_k0_wf, ps::Message, 40, 12, 14, ps::Message::ShareRequest(any_u8()), ps::eq, 0);
 rt!(c22_t_n1_ps_sharerequest_k0_rt, ps::Message, 40, 12, 14, ps::Message::ShareRequest(any_u8()), ps::eq, 0);
 wf!(c22_t_n1_ps_sharerequest_k1_wf, ps::Message, 40, 12, 14, ps::Message::ShareRequest(any_u8()), ps::eq, 1);
@@ -581,13 +581,13 @@ rt!(c22_t_n1_ps_sharerequest_k2_rt, ps::Message, 40, 12, 14, ps::Message::ShareR
 wf!(c22_t_n1_ps_sharerequest_k3_wf, ps::Message, 40, 12, 14, ps::Message::ShareRequest(any_u8()), ps::eq, 3);
 rt!(c22_t_n1_ps_sharerequest_k3_rt, ps::Message, 40, 12, 14, ps::Message::ShareRequest(any_u8()), ps::eq, 3);
 wf!(c22_t_n1_ps_sharepeers1_v4_k0_wf, ps::Message, 40, 12, 14, ps::Message::SharePeers(vec![ps::v4()]), ps::eq, 0);
-rt!(c22_t_n1_ps_sharepeers1_v4_k0_rt, ps::Message, 40, 12, 14, ps::Message::SharePeers(vec![ps::v4()]), ps::eq, 0);
+rt!(c22_x_n1_ps_sharepeers1_v4_k0_rt, ps::Message, 40, 12, 14, ps::Message::SharePeers(vec![ps::v4()]), ps::eq, 0);
 wf!(c22_t_n1_ps_sharepeers1_v4_k1_wf, ps::Message, 40, 12, 14, ps::Message::SharePeers(vec![ps::v4()]), ps::eq, 1);
-rt!(c22_t_n1_ps_sharepeers1_v4_k1_rt, ps::Message, 40, 12, 14, ps::Message::SharePeers(vec![ps::v4()]), ps::eq, 1);
+rt!(c22_x_n1_ps_sharepeers1_v4_k1_rt, ps::Message, 40, 12, 14, ps::Message::SharePeers(vec![ps::v4()]), ps::eq, 1);
 wf!(c22_t_n1_ps_sharepeers1_v4_k2_wf, ps::Message, 40, 12, 14, ps::Message::SharePeers(vec![ps::v4()]), ps::eq, 2);
-rt!(c22_t_n1_ps_sharepeers1_v4_k2_rt, ps::Message, 40, 12, 14, ps::Message::SharePeers(vec![ps::v4()]), ps::eq, 2);
+rt!(c22_x_n1_ps_sharepeers1_v4_k2_rt, ps::Message, 40, 12, 14, ps::Message::SharePeers(vec![ps::v4()]), ps::eq, 2);
 wf!(c22_t_n1_ps_sharepeers1_v4_k3_wf, ps::Message, 40, 12, 14, ps::Message::SharePeers(vec![ps::v4()]), ps::eq, 3);
-rt!(c22_t_n1_ps_sharepeers1_v4_k3_rt, ps::Message, 40, 12, 14, ps::Message::SharePeers(vec![ps::v4()]), ps::eq, 3);
+rt!(c22_x_n1_ps_sharepeers1_v4_k3_rt, ps::Message, 40, 12, 14, ps::Message::SharePeers(vec![ps::v4()]), ps::eq, 3);
 
 /// vacuity twin: must come back FAILED
 #[kani::proof]
